@@ -95,6 +95,7 @@ static uint64_t mix64(uint64_t x) {
 }
 
 static void in_lock_init(void);
+static int g_id_mtx_lock_before_cas = -2;
 static void cfg_init(void) {
   if (cfg.inited) return;
   const char * s;
@@ -153,6 +154,7 @@ static void cfg_init(void) {
   if ((s = getenv("MYTH_VERIF_SPIN_LIMIT")) && *s) cfg.spin_limit = atol(s);
   if ((s = getenv("MYTH_VERIF_SPIN_SECS")) && *s) cfg.spin_secs = atof(s);
   in_lock_init();
+  g_id_mtx_lock_before_cas = myth_verif_id_of("MTX_LOCK_BEFORE_CAS");
   cfg.inited = 1;
 }
 
@@ -171,6 +173,9 @@ typedef struct vt {
   const char * nb_what;
   int last_spin_id;
   uint64_t lock_run;
+  int rep_id;
+  uint64_t rep_count;
+  struct timespec rep_t0;
   struct timespec lock_t0;
   uint64_t spin_run;
   struct timespec spin_t0;
@@ -360,6 +365,7 @@ static void inject(vt_t * t, int id) {
 
 /* ------------------------------------------------------------------ hooks: points */
 
+static void spin_verdict(vt_t * t, int id, uint64_t run, struct timespec * t0);
 void myth_verif_point(int id) {
   vt_t * t = vt_get();
   t->hits[id]++;
@@ -367,6 +373,12 @@ void myth_verif_point(int id) {
      they do not end a spin run */
   if (id != MYTH_VERIF_ID_SQ_DEQ_LOCKED && id != MYTH_VERIF_ID_SQ_ENQ_LOCKED) { t->last_spin_id = -1; t->lock_run = 0; }
   ring_add(t, id, 0);
+  /* a blocking call that goes round its retry loop for ever instead of blocking (e.g. mutex lock whose seat
+     reservation can never succeed): the same retry point, and no other point, 2^26 times and for spin_secs */
+  if (id == g_id_mtx_lock_before_cas) {
+    if (t->rep_id != id) { t->rep_id = id; t->rep_count = 0; clock_gettime(CLOCK_MONOTONIC, &t->rep_t0); }
+    if ((++t->rep_count & 0xfffff) == 0 && t->rep_count > (1ULL << 26)) spin_verdict(t, id, t->rep_count, &t->rep_t0);
+  } else t->rep_id = -1;
   if (t->nb_depth && g_cls[id] == 'B') {
     myth_verif_violation("nonblocking:blocked",
                          "blocking path %s entered during non-blocking call %s (worker %d)",
